@@ -3,6 +3,9 @@
 package main
 
 import (
+	"mime"
+	"net/mail"
+
 	"raven/internal/server/message"
 )
 
@@ -13,6 +16,22 @@ import (
 // Rows are built exactly as db.GetMessageParts builds them (int64 values,
 // parent_part_id present only when the column is not NULL).
 func init() {
+	// mailParse: the library reading of an address-list header that the model of
+	// response.parseAddressList takes as its parameter mail_parse:
+	// net/mail.ParseAddressList, each display name passed through
+	// mime.QEncoding.Encode("utf-8", .).  -> [name1, addr1, name2, addr2, ...],
+	// or {"err": ...} when the header does not parse (or parses to nothing).
+	calls["mailParse"] = func(a []string, n []int) interface{} {
+		list, err := mail.ParseAddressList(a[0])
+		if err != nil || len(list) == 0 {
+			return map[string]interface{}{"err": true}
+		}
+		out := []string{}
+		for _, x := range list {
+			out = append(out, bs(mime.QEncoding.Encode("utf-8", x.Name)), bs(x.Address))
+		}
+		return out
+	}
 	calls["mapPath"] = func(a []string, n []int) interface{} {
 		k := n[0]
 		parts := make([]map[string]interface{}, 0, k)
